@@ -58,6 +58,7 @@ def groups(tier):
     out += [('best-estimate[%d,%d]' % kn, ('best',) + kn) for kn in [(4, 2), (3, 3), (6, 2), (1, 2), (2, 1)]]
     out.append(('zero-order', ('zero',)))
     out.append(('elementwise-concrete', ('econc',)))
+    out.append(('call-history', ('hist',)))
     out.append(('complex-step-concrete', ('cconc',)))
     return out
 
@@ -283,7 +284,42 @@ def run_econc():
                kind='bounded', note=str(bad[:1])[:400])
     return {}
 
+def run_hist():
+    """one object, two calls at the SAME point with different extra arguments: the second call evaluates f exactly as a fresh
+    object would (same number of evaluations, every one with the second call's arguments, same result terms)"""
+    with fd_env(names=ALL, symkey_cache=False, exact_factorial=False) as m:
+        core, mc = m['core'], m['mc']
+        for method, n, order in [('forward', 1, 2), ('central', 2, 2), ('backward', 1, 2), ('complex', 1, 2), ('central', 1, 2)]:
+            for full in (True, False):
+                CTX.reset()
+                x = SymArr([real('x0'), real('x1')])
+                f = ElementwiseF(mc)
+                d = core.Derivative(f, step=ElementwiseGen(n + order + 4), method=method, n=n, order=order, full_output=full)
+                f2 = ElementwiseF(mc)
+                d2 = core.Derivative(f2, step=ElementwiseGen(n + order + 4), method=method, n=n, order=order, full_output=full)
+                tag = '%s,n=%d,full_output=%s:' % (method, n, full)
+                with warnings.catch_warnings():
+                    warnings.simplefilter('ignore')
+                    pa = explore(lambda: (d(x, 'A', 1, key='K'), len(f.calls), d(x, 'B', 2, key='L'))[1:], pre=nom_positive_facts(list(x)), max_paths=8)
+                    pb = explore(lambda: d2(x, 'B', 2, key='L'), pre=nom_positive_facts(list(x)), max_paths=8)
+                ok = len(pa) == 1 and pa[0].exc is None and len(pb) == 1 and pb[0].exc is None
+                solve.fact(tag + 'single-path-no-exception', ok, note=str([repr(p.exc)[:150] for p in pa + pb if p.exc][:1]))
+                if not ok:
+                    continue
+                n1, second = pa[0].value
+                fresh = pb[0].value
+                calls2 = f.calls[n1:]
+                solve.fact(tag + 'second-call-evaluates-f-as-often-as-a-fresh-object-and-always-with-its-own-arguments',
+                           len(calls2) == len(f2.calls) and len(calls2) > 0 and all(a == ('B', 2) and k == dict(key='L') for a, k in calls2),
+                           note=str((n1, len(calls2), len(f2.calls), calls2[:1]))[:200])
+                va = asobj(second[0] if full else second).ravel(); vb = asobj(fresh[0] if full else fresh).ravel()
+                solve.fact(tag + 'second-call-returns-the-terms-of-a-fresh-object', len(va) == len(vb) and all(all(p_.eq(q_) for p_, q_ in zip(all_parts(u), all_parts(v))) for u, v in zip(va, vb)))
+    return {}
+
+
 def run_group(args):
+    if args[0] == 'hist':
+        return run_hist()
     if args[0] == 'econc':
         return run_econc()
     if args[0] == 'cconc':
